@@ -31,7 +31,9 @@ STYLES = ("rest", "numpydoc", "google")
 FORMS = ("function", "self", "cls", "class_init", "class_init_nested_before", "class_init_nested_after", "class_init_module",
          # the same definitions handed over as live objects (imported from a module file that is rewritten for every case
          # under the same module name and the same qualified names)
-         "live_function", "live_class_init")
+         "live_function", "live_class_init",
+         # a class whose interface is its attributes (annotated or plain assignments), documented by :cvar lines
+         "class_attrs")
 # the class + __init__ form in richer surroundings: a nested helper class with its own __init__ before / after the
 # outer __init__; a module (searched by class name) whose earlier class has a name that is a suffix of the wanted one
 HELPER = "    class Helper(object):\n        def __init__(self, key, value=2):\n            self.key = key\n\n"
@@ -70,10 +72,12 @@ def build_cases(tier):
                                 continue
                             if (form.startswith("class_init_") or form.startswith("live_")) and tier == "quick" and ann == "alt":
                                 continue
+                            if form == "class_attrs" and not (d == p and all(kwmask) and not kwargs and p + q > 0):
+                                continue  # every attribute holds a value; an attribute-less class has no interface
                             cases.append((p, d, q, kwmask, kwargs, ann, style, sub, order, form, 0))
                             # docstring states a (falsy) default that differs from the signature's: documented wins
                             has_sig_default = any((i < p and i >= p - d) or (p <= i < p + q and kwmask[i - p]) for i in sub)
-                            if has_sig_default and order == "sig" and (tier == "thorough" or (style == "rest" and ann != "alt")):
+                            if has_sig_default and order == "sig" and form != "class_attrs" and (tier == "thorough" or (style == "rest" and ann != "alt")):
                                 cases.append((p, d, q, kwmask, kwargs, ann, style, sub, order, form, 1))
     return cases
 
@@ -141,7 +145,12 @@ def render(case):
             doc_types[n] = t
     doc = "\n".join([ind + '"""', ind + "Summary of it", ""] + [(ind + ln) if ln else "" for ln in lines] + [ind + '"""'])
     sig = ", ".join(parts)
-    if form == "function":
+    if form == "class_attrs":
+        cdoc = doc.replace(":param ", ":cvar ") if style == "rest" else doc
+        cdoc = "\n".join(ln[4:] if ln.startswith("        ") else ln for ln in cdoc.split("\n"))
+        attrs = "".join("    %s%s = %s\n" % (n, (": %s" % a) if a else "", dv) for n, a, dv in exp)
+        src = "class K(object):\n%s\n\n%s" % (cdoc, attrs)
+    elif form == "function":
         src = "def f(%s):\n%s\n    return None\n" % (sig, doc)
     elif form in ("self", "cls"):
         deco = "    @classmethod\n" if form == "cls" else ""
@@ -201,6 +210,8 @@ def parse_case(case, src):
     if form in ("self", "cls"):
         fn = [n for n in tree.body[0].body if isinstance(n, ast.FunctionDef)][0]
         return parse.function(fn)
+    if form == "class_attrs":
+        return parse.class_(tree.body[0])
     if form == "class_init_module":
         return parse.class_(tree, class_name="TrainK", merge_inner_function="__init__")
     return parse.class_(tree.body[0], merge_inner_function="__init__")
@@ -212,6 +223,8 @@ def python_view(case, src):
     ns = {"Optional": typing.Optional}
     exec(compile(src, "<c07>", "exec"), ns)
     form = {"live_function": "function", "live_class_init": "class_init"}.get(case[9], case[9])
+    if form == "class_attrs":
+        return [(n, "ATTRIBUTE", v) for n, v in ns["K"].__dict__.items() if not n.startswith("__")]
     obj = ns["f"] if form == "function" else (ns["K"].__dict__["f"] if form in ("self", "cls") else
                                              ns["TrainK" if form == "class_init_module" else "K"].__init__)
     if isinstance(obj, classmethod):
